@@ -692,9 +692,15 @@ INSPACE_HYPS = ("baseIdsNodup", "rolesOk", "ivSorts", "rstrLinked", "scopesHeld"
                 "quantBody", "quantHead")
 
 
+# InSpaceSrc (roundtrip_iso_src): every hypothesis is a predicate of the source MRS and scope.representatives(m)
+INSPACE_SRC_HYPS = ("baseIdsNodup", "rolesOk", "ivSorts", "rstrLinked", "scopesHeldSrc", "handleSorts", "topOk",
+                    "qeqOnly", "argsLinked", "noCargRole", "oneConstraint", "noConstrainedLabel", "holesOnce",
+                    "quantBody", "quantHeadSrc", "topRep")
+
+
 class C04(Check):
     pid = "C04"
-    props_modules = ["Verif.C04.Props", "Verif.C04.PropsRT", "Verif.C04.PropsIso"]
+    props_modules = ["Verif.C04.Props", "Verif.C04.PropsRT", "Verif.C04.PropsIso", "Verif.C04.PropsSrc"]
     quick_cases = 4000
     thorough_cases = 40000
     rule = ("(a) 19 curated structures of 0-5 predications, one per attachment kind (modifier, label sharing without "
@@ -743,6 +749,28 @@ class C04(Check):
         "case of the property's space without a starved group; O1 is counted on all cases and on the space "
         "(extra_evidence: O1_quantHead); roundtrip_iso_needs_O1 is the decide-checked case where only O1 fails and "
         "no map exists",
+        "roundtrip_iso_src / second_conversion_stable_src (PropsSrc.lean) assume NO conversion result: their class "
+        "InSpaceSrc is sixteen decidable predicates of m and scope.representatives(m) — the fifteen above with "
+        "ScopesHeld/QuantHead in source form (ScopesHeldSrc: every scope connected through label-internal arguments and "
+        "the ties between its representatives; QuantHeadSrc: the first representative of each quantifier's restriction "
+        "is a non-quantifier with the bound variable as ARG0) plus TopRep (the top scope has a representative); the "
+        "source forms are PROVED to imply the DMRS forms, and from_mrs, from_dmrs and the second from_mrs are PROVED to "
+        "succeed. The driver evaluates all sixteen on every case; the run fails if (a) one is false on a case of the "
+        "property's space without a starved group, (b) the real code or the model raises in any conversion on an "
+        "InSpaceSrc case, (c) a source form holds where the DMRS form fails (with distinct ids). Every conversion error "
+        "of the real code is recorded with its space class and the hypotheses failing there "
+        "(coverage: conversion_errors_by_space / _failing_hypothesis): every from_dmrs KeyError has QuantHeadSrc (O1) "
+        "false, every from_mrs IndexError has TopRep false (F08)",
+        "`strip` (what 'DMRS cannot express' means in the isomorphism theorems) removes: arguments that are neither "
+        "ARG0, nor the intrinsic variable of a non-quantifier predication, nor a label, nor a handle whose constraint "
+        "selects a scope, nor a quantifier's BODY; the individual constraints; a top that selects no scope; an index "
+        "that is no intrinsic variable of a non-quantifier predication; handle constraints that are unused or not the "
+        "last on their handle. strip_only_named proves top/index/hcons/variables are untouched under OneConstraint, "
+        "TopSelects, IndexIV, HconsUsed; on the property's space TopSelects and HconsUsed always held, IndexIV failed on "
+        "about 0.2% of the cases (coverage: strip_keeps_*) — there the index is dropped on both sides (from_mrs drops it)",
+        "the model answers 'unmodelled' when EP ids are not pairwise distinct after _uniquify_ids (whole case) or in the "
+        "MRS that came back (second conversion only); both are counted (coverage: model_unmodelled) and are a "
+        "disagreement on a case of the property's space or of InSpaceSrc",
         "DMRS identifies the variable a quantifier binds with the target of its RSTR link (first representative of the "
         "restriction): MRSs whose quantifier binds another member of the restriction are counted as outside the space "
         "(the round trip rebinds the quantifier); likewise intrinsic variables of sorts outside x/e/i/p/u "
@@ -934,24 +962,77 @@ class C04(Check):
                     chosen.append(e["label"])
         return {"op": "rt", "m": case["m"], "chosen": chosen}
 
+    def _count(self, group, key):
+        ev = self.__dict__.setdefault("_ev", {})
+        g = ev.setdefault(group, {})
+        g[key] = g.get(key, 0) + 1
+
     def model_compare(self, case, expected, answer):
+        m = semgen.mrs_from_json(case["m"])
+        why = in_space(case["m"], m)
+        inside = why is None and not starved_scopes(m)
         if isinstance(answer, dict) and "unmodelled" in answer:
+            # the model declines (EP ids not pairwise distinct after _uniquify_ids): counted; never
+            # accepted on a case of the property's space
+            self._count("model_unmodelled", "whole-case:%s|space:%s" % (answer["unmodelled"], why or "inside"))
+            if inside:
+                return {"one_sided_unmodelled_on_in_space_case": answer}
             return None
         if not isinstance(answer, dict):
             return {"expected_from_impl": expected, "model": answer}
+        self._count("model_unmodelled", "none")
         hyp = answer.get("hyp") or {}
+        src_ok = [k for k in INSPACE_SRC_HYPS if k in hyp]
+        src_fail = [k for k in INSPACE_SRC_HYPS if not hyp.get(k, True)]
+        in_src = len(src_ok) == len(INSPACE_SRC_HYPS) and not src_fail
+        if src_ok:
+            self._count("InSpaceSrc", "holds" if in_src else "fails")
+            # strip_only_named (A4): on which cases does `strip` remove more than the claim names
+            # (a top selecting no scope / an index that is no intrinsic variable / unused constraints)?
+            for k in ("topSelects", "indexIV", "hconsUsed"):
+                if in_src:
+                    self._count("strip_keeps_on_InSpaceSrc", "%s:%s" % (k, "holds" if hyp.get(k) else "fails"))
+                if inside:
+                    self._count("strip_keeps_on_space_without_starved_group",
+                                "%s:%s" % (k, "holds" if hyp.get(k) else "fails"))
+            if inside:
+                self._count("strip_keeps_on_space_without_starved_group", "all-three:%s" % (
+                    "holds" if all(hyp.get(k) for k in ("topSelects", "indexIV", "hconsUsed")) else "fails"))
+        # totality (A1): class of every conversion error of the real code = the hypotheses that fail there
+        for stage in ("d1", "m2"):
+            if "err" in expected.get(stage, {}):
+                tag = "%s:%s" % (stage, expected[stage]["err"])
+                self._count("conversion_errors_by_space", "%s|space:%s%s" % (
+                    tag, why or "inside", "(starved group, F08)" if why is None and not inside else ""))
+                for k in (src_fail or ["NONE"]):
+                    self._count("conversion_errors_failing_hypothesis", "%s|%s" % (tag, k))
+                if in_src:
+                    return {"conversion_error_on_InSpaceSrc_case": expected[stage]}
+        if in_src:
+            # fromMrs_total / fromDmrs_total / second conversion: no error on InSpaceSrc, in the model either
+            for stage in ("d1", "m2", "d2"):
+                if "err" in answer.get(stage, {}):
+                    return {"model_error_on_InSpaceSrc_case": {stage: answer[stage]}}
         if "quantHead" in hyp:
+            # the source-only forms imply the forms stated on the DMRS (inSpace_of_src)
+            for a_, b_ in (("scopesHeldSrc", "scopesHeld"), ("quantHeadSrc", "quantHead")):
+                self._count("src_vs_dmrs_form", "%s=%s,%s=%s" % (a_, hyp.get(a_), b_, hyp.get(b_)))
+                if hyp.get(a_) and not hyp.get(b_) and hyp.get("baseIdsNodup") and hyp.get("rolesOk"):
+                    return {"source_form_true_dmrs_form_false": [a_, b_]}
             # O1 (each quantifier binds the first representative of its restriction), the named
             # hypothesis of roundtrip_iso: evaluated by the model on every case, counted
             self._o1 = getattr(self, "_o1", {"all_cases": {"holds": 0, "fails": 0},
                                              "space_without_starved_group": {"holds": 0, "fails": 0},
                                              "inSpace_all_15_hold": 0})
             self._o1["all_cases"]["holds" if hyp["quantHead"] else "fails"] += 1
+        if inside and src_ok:
+            # the property's space (direct oracle's definition, no starved group) lies inside InSpaceSrc
+            if src_fail:
+                return {"hypotheses_of_roundtrip_iso_src_fail_on_in_space_case": src_fail}
         if "repsAgree" in hyp:
             # the hypotheses of second_conversion_stable_partial must hold on the property's space
             # (outside the input class of F08): evaluated by the model on every such case
-            m = semgen.mrs_from_json(case["m"])
-            if in_space(case["m"], m) is None and not starved_scopes(m):
+            if inside:
                 bad = [k for k in ("baseIdsNodup", "rolesOk", "ivSorts", "rstrLinked", "scopesHeld", "repsAgree")
                        if not hyp.get(k, True)]
                 # NoDescArg (the extra hypothesis of second_conversion_stable) is not implied by the space:
@@ -973,6 +1054,11 @@ class C04(Check):
             if "ok" in side.get("m2", {}):
                 side["m2"] = {"ok": dict(side["m2"]["ok"], vars=sorted(side["m2"]["ok"]["vars"]))}
         if a.get("d2") == {"err": "unmodelled"}:
+            # the MRS that came back has repeated EP ids: the model declines the second conversion;
+            # counted, never accepted on a case of the property's space (roundtrip_baseIds)
+            self._count("model_unmodelled", "d2-only|space:%s" % (why or "inside"))
+            if inside or in_src:
+                return {"one_sided_unmodelled_d2_on_in_space_case": expected.get("d2")}
             a.pop("d2")
             expected = {k: v for k, v in expected.items() if k != "d2"}
         return super().model_compare(case, expected, a)
@@ -1221,8 +1307,10 @@ class C04(Check):
                 inc("inside:ids-not-in-position-order")
 
     def extra_evidence(self):
-        return {"noDescArg_on_space_without_starved_group": getattr(self, "_nodesc", None),
-                "O1_quantHead": getattr(self, "_o1", None)}
+        ev = {"noDescArg_on_space_without_starved_group": getattr(self, "_nodesc", None),
+              "O1_quantHead": getattr(self, "_o1", None)}
+        ev.update(getattr(self, "_ev", {}))
+        return ev
 
     def shrink(self, case, still_fails):
         cur = case
